@@ -590,3 +590,39 @@ func (w *World) Burst(r *verifutil.Rng) []*Gen {
 	}
 	return out
 }
+
+// FatTxs generates a few transactions with large payloads (hundreds of KB) from rich senders,
+// so that the block gas cap - and upgrade 10's "one tx may overflow" rule - is reached from
+// both sides when the proposer builds a block.
+func (w *World) FatTxs(r *verifutil.Rng) []*Gen {
+	v := w.View()
+	st := v.AppState.State
+	var out []*Gen
+	n := r.Range(2, 6)
+	used := map[common.Address]uint32{}
+	for i := 0; i < n; i++ {
+		from := w.pickActor(r, func(a *Actor, _ state.Identity) bool { return st.GetBalance(a.Addr).Cmp(Dna(3000)) > 0 })
+		if from == nil {
+			break
+		}
+		size := []int{40000, 120000, 250000, 400000}[r.Intn(4)] + r.Intn(5000)
+		payload := make([]byte, size)
+		copy(payload, r.Bytes(64))
+		to := w.anyAddr(r)
+		nonce := w.NextNonce(from) + used[from.Addr]
+		used[from.Addr]++
+		probe := &types.Transaction{AccountNonce: nonce, Epoch: st.Epoch(), Type: types.SendTx, To: &to, Amount: Dna(1), Payload: payload, MaxFee: Dna(1)}
+		f := w.FeeFor(probe)
+		minFee := fee.CalculateFee(v.AppState.ValidatorsCache.NetworkSize(), fee.GetFeePerGasForNetwork(v.AppState.ValidatorsCache.NetworkSize()), probe)
+		maxFee := new(big.Int).Mul(f, big.NewInt(2))
+		if maxFee.Cmp(minFee) < 0 {
+			maxFee.Set(minFee)
+		}
+		maxFee.Add(maxFee, big.NewInt(1000))
+		if st.GetBalance(from.Addr).Cmp(new(big.Int).Add(maxFee, Dna(2))) < 0 {
+			continue
+		}
+		out = append(out, &Gen{Tx: SignedTx(from, types.SendTx, &to, Dna(1), maxFee, nil, nonce, st.Epoch(), payload), Kind: "fat:Send"})
+	}
+	return out
+}
